@@ -216,21 +216,24 @@ def oracle_det(rng, sets, n=4):
             T1c, T1t = rng.uniform(2e-5, 9e-5, 2); T2c = T1c * rng.uniform(0.3, 2.0); T2t = T1t * rng.uniform(0.3, 2.0)   # domain: T2 <= 2 T1
             pc, pt = rng.uniform(1e-3, 5e-3, 2); p2 = 0.3; tt = rng.uniform(2e-7, 5e-7); a, b = rng.uniform(-3, 3, 2)
             th = rng.uniform(-3, 3)
-            E1c, E1t = T1c / sc, T1t / sc      # effective T1 seen by the factories
-            chk = [("X", g.X(a, pc, T1c, T2c), nf.X(a, 0, 0, 0), det_pred(2, [(TG, E1c)]), (a, pc, T1c, T2c)),
-                   ("SX", g.SX(a, pc, T1c, T2c), nf.SX(a, 0, 0, 0), det_pred(2, [(TG, E1c)]), (a, pc, T1c, T2c)),
-                   ("single_qubit_gate", g.single_qubit_gate(th, a, pc, T1c, T2c), np.eye(2), det_pred(2, [(TG, E1c)]), (th, a, pc, T1c, T2c)),
-                   ("CR", g.CR(0.7, a, tt, 0.02, T1c, T2c, T1t, T2t), np.eye(4), det_pred(4, [(tt, E1c), (tt, E1t)]), (0.7, a, tt, 0.02, T1c, T2c, T1t, T2t)),
-                   ("relaxation", g.relaxation(tt, T1c, T2c), np.eye(2), det_pred(2, [(tt, E1c)]), (tt, T1c, T2c)),
-                   ("depolarizing", g.depolarizing(tt, pc), np.eye(2), 1, (tt, pc)), ("bitflip", g.bitflip(tt, 0.03), np.eye(2), 1, (tt, 0.03))]
-            for nm, tc in (('CNOT', tt), ('CNOT_inv', tt), ('ECR', tt - TG), ('ECR_inv', tt + TG)):
-                args = (a, b, tt, p2, pc, pt, T1c, T2c, T1t, T2t)
-                chk.append((nm, getattr(g, nm)(*args), getattr(nf, nm)(a, b, tt, 0, 0, 0, 0, 0, 0, 0), det_pred(4, [(tc, E1c), (tc, E1t)]), args))
-            for nm, G, G0, pr, args in chk:
-                cnt += 1
-                r = np.linalg.det(G) / np.linalg.det(G0) / pr
-                if not abs(r - 1) < 1e-10:
-                    out.append((sname, nm, [float(x) for x in args], complex(r)))
+            # the same angles and durations are requested twice on the same gate-set object, the second time with the two qubits'
+            # calibration values exchanged (another qubit, same pulse): the law is per call, whatever was sampled before
+            for (T1c, T2c, pc, T1t, T2t, pt) in ((T1c, T2c, pc, T1t, T2t, pt), (T1t, T2t, pt, T1c, T2c, pc)):
+                E1c, E1t = T1c / sc, T1t / sc      # effective T1 seen by the factories
+                chk = [("X", g.X(a, pc, T1c, T2c), nf.X(a, 0, 0, 0), det_pred(2, [(TG, E1c)]), (a, pc, T1c, T2c)),
+                       ("SX", g.SX(a, pc, T1c, T2c), nf.SX(a, 0, 0, 0), det_pred(2, [(TG, E1c)]), (a, pc, T1c, T2c)),
+                       ("single_qubit_gate", g.single_qubit_gate(th, a, pc, T1c, T2c), np.eye(2), det_pred(2, [(TG, E1c)]), (th, a, pc, T1c, T2c)),
+                       ("CR", g.CR(0.7, a, tt, 0.02, T1c, T2c, T1t, T2t), np.eye(4), det_pred(4, [(tt, E1c), (tt, E1t)]), (0.7, a, tt, 0.02, T1c, T2c, T1t, T2t)),
+                       ("relaxation", g.relaxation(tt, T1c, T2c), np.eye(2), det_pred(2, [(tt, E1c)]), (tt, T1c, T2c)),
+                       ("depolarizing", g.depolarizing(tt, pc), np.eye(2), 1, (tt, pc)), ("bitflip", g.bitflip(tt, 0.03), np.eye(2), 1, (tt, 0.03))]
+                for nm, tc in (('CNOT', tt), ('CNOT_inv', tt), ('ECR', tt - TG), ('ECR_inv', tt + TG)):
+                    args = (a, b, tt, p2, pc, pt, T1c, T2c, T1t, T2t)
+                    chk.append((nm, getattr(g, nm)(*args), getattr(nf, nm)(a, b, tt, 0, 0, 0, 0, 0, 0, 0), det_pred(4, [(tc, E1c), (tc, E1t)]), args))
+                for nm, G, G0, pr, args in chk:
+                    cnt += 1
+                    r = np.linalg.det(G) / np.linalg.det(G0) / pr
+                    if not abs(r - 1) < 1e-10:
+                        out.append((sname, nm, [float(x) for x in args], complex(r)))
     return cnt, out
 
 
@@ -265,16 +268,21 @@ def oracle_zero_unitary(rng, sets, n=4):
     return cnt, out
 
 
-def oracle_blocks(rng, pulse=None, n=2):
+def oracle_blocks(rng, pulse=None, n=2, warm=True):
     """every stochastic block of the single-qubit and CR factories = strength * U^dag L U at the sample's integrand
-    functions; sampler covariances and drift = independent quadrature (ported from notes/mutation/oracle_suite.py)"""
-    from quantum_gates._gates.gates import Gates
-    from quantum_gates._gates.pulse import GaussianPulse
+    functions; sampler covariances and drift = independent quadrature (ported from notes/mutation/oracle_suite.py).
+    warm: gate sets on OTHER pulse shapes living in the same process are asked for the same angles and durations first (the
+    statement is per gate set, whatever else the process has evaluated before)"""
+    from quantum_gates._gates.gates import Gates, standard_gates
+    from quantum_gates._gates.pulse import GaussianPulse, ConstantPulseNumerical
     pulse = pulse or GaussianPulse(0.4, 0.3)
     F = pulse.get_parametrization(); g = Gates(pulse); out = []; cnt = 0
+    others = [standard_gates, Gates(ConstantPulseNumerical()), Gates(GaussianPulse(0.55, 0.2))] if warm else []
     Qd = lambda f, a: scipy.integrate.quad(f, 0, a, epsabs=1e-12, epsrel=1e-12)[0]
     for t in range(n):
         th0 = rng.uniform(-3, 3); ph = rng.uniform(-3, 3); theta = rng.uniform(0.3, 3) * rng.choice([-1, 1])
+        for w in others:
+            w.single_qubit_gate(theta, ph, 0.01, 5e-5, 4e-5); w.CR(theta, ph, 2.5e-7, 0.03, 2e-6, 1.5e-6, 3e-6, 2.5e-6)
         s3 = [np.sin(th0), np.sin(th0 / 2) ** 2, 1.0]; s2 = [np.cos(th0), np.sin(th0)]; z3 = [0, 0, 0]; z2 = [0, 0]
         for name, L, act, (p, T1, T2), stn in [('X', X, 0, (0.04, 0, 0), np.sqrt(.01)), ('Y', Y, 1, (0.04, 0, 0), np.sqrt(.01)), ('Z', Z, 2, (0.04, 0, 0), np.sqrt(.01)),
                                                ('sigma-', SM, 3, (0, 1e-6, 0), np.sqrt(TG / 1e-6)), ('Z dephasing', Z, 4, (0, 0, 1e-6), np.sqrt(.5 * TG / 1e-6))]:
@@ -351,18 +359,30 @@ def run_gate_check(ck, oracle_fn, oracle_name, validate=("elementary", "composit
     vbad = []
     if T is not None:
         from quantum_gates._gates.pulse import GaussianPulse, constant_pulse
+        # an exception while replaying the intercepted real computation against the trace (e.g. the real code no longer makes the
+        # expm / sampler calls the trace recorded) means the trace does not represent the code: fail closed, never crash
         if "elementary" in validate:
-            cnt, vb = validate_elementary(T, rng, [constant_pulse, GaussianPulse(0.5, 0.25)], 2 if ck.tier == "quick" else 8)
+            try:
+                cnt, vb = validate_elementary(T, rng, [constant_pulse, GaussianPulse(0.5, 0.25)], 2 if ck.tier == "quick" else 8)
+            except Exception as e:  # noqa
+                cnt, vb = 0, [("validation raised", "%s: %s" % (type(e).__name__, str(e)[:200]))]
             ck.count("trace_validation_elementary (U, drift, generator, sampler arguments vs intercepted real calls, every decision path)", cnt, key=("elem", ck.seed))
             vbad += vb
         if "composites" in validate:
-            cnt, vb = validate_composites(T, rng, 4 if ck.tier == "quick" else 30)
+            try:
+                cnt, vb = validate_composites(T, rng, 4 if ck.tier == "quick" else 30)
+            except Exception as e:  # noqa
+                cnt, vb = 0, [("validation raised", "%s: %s" % (type(e).__name__, str(e)[:200]))]
             ck.count("trace_validation_composites", cnt, key=("comp", ck.seed))
             vbad += vb
         ck.oblige("traced expressions == intercepted real computations at random arguments", not vbad)
         ck.samples.append({"family": "trace", "case": {"single-qubit paths": [p["dec"] for p in T["sq"]], "cr paths": len(T["cr"]),
                                                         "CNOT calls": [(c[0], [repr(a) for a in c[1]]) for c in T["comp"]["CNOT"]["calls"]]}})
-    ocnt, obad = oracle_fn(rng)
+    try:
+        ocnt, obad = oracle_fn(rng)
+    except Exception as e:  # noqa: the implementation (or the interception of it) raised inside the property's domain
+        import traceback
+        ocnt, obad = 0, [("oracle raised", "%s: %s" % (type(e).__name__, str(e)[:200]), traceback.format_exc()[-1200:])]
     ck.count(oracle_name, ocnt)
     for i, b in enumerate(obad[:50]):
         ck.distinct.add((oracle_name, i))
@@ -371,7 +391,8 @@ def run_gate_check(ck, oracle_fn, oracle_name, validate=("elementary", "composit
     ck.oblige("direct oracle %s on the implementation" % oracle_name, not obad)
     if obad:
         b = obad[0]
-        ck.report("oracle:" + str(b[1] if len(b) > 1 else b[0])[:60], "%s fails: %r" % (oracle_name, b), {"oracle": oracle_name, "case": json.loads(json.dumps(b, default=str))})
+        ck.report("oracle:" + str(b[1] if len(b) > 1 else b[0])[:60], "%s fails: %r" % (oracle_name, b), {"oracle": oracle_name, "case": json.loads(json.dumps(b, default=str))},
+                  b[0] != "oracle raised")
     elif not ok:
         ck.report("proof:" + str(failing), "proof obligation / regeneration no longer checks: %s" % failing, {"theorem": str(failing), "log": (out or "")[-1500:]}, False)
     elif vbad:
